@@ -1,7 +1,7 @@
 import TypstyleModel.Model.Stylist.Flow
 /-! `pretty/layout/plain.rs`: `PlainStylist`. -/
 namespace Typstyle
-open Pretty
+open Twin
 
 inductive PItem where
   | item (d : Doc) | comma | linebreak (n : Nat) | lineComment (d : Doc) | blockComment (d : Doc)
